@@ -2,6 +2,7 @@
 #![allow(dead_code)]
 //! `--cfg raptorq_verif`) and writes ndjson traces that TLC validates against the TLA+ specification,
 //! or replays TLC-generated behaviours on the real objects.
+mod enc;
 mod gf256;
 mod util;
 
@@ -14,6 +15,7 @@ fn main() {
     let opts = util::Opts::parse(&args[2..]);
     match args[1].as_str() {
         "gf256" => gf256::run(&opts),
+        "enc" => enc::run(&opts),
         other => {
             eprintln!("unknown command {other}");
             std::process::exit(2);
